@@ -131,12 +131,12 @@ def check_tangent_at(seg, t, case, acc, sig):
     return u
 
 
-def check_segment(name, rot, acc):
-    seg = AB.make(name, rot=rot)
+def check_segment(name, rot, acc, scale=1.0):
+    seg = AB.make(name, scale, rot=rot)
     kind = type(seg).__name__[0]
     size = seg_size(seg)
     for t in TS:
-        case = {'what': 'segment', 'shape': name, 'rot': rot, 't': t}
+        case = {'what': 'segment', 'shape': name, 'rot': rot, 't': t, 'scale': scale}
         if kind == 'L' and seg.start == seg.end:
             continue
         u = check_tangent_at(seg, t, case, acc, {'input': 'python'})
@@ -158,8 +158,10 @@ def check_segment(name, rot, acc):
         if not errstate_ok():
             np.seterr(divide='warn', over='warn', under='ignore', invalid='warn')
             acc.violation('numpy_error_state_not_restored', {'kind': kind, 'fn': 'curvature'}, case)
-        if r[0] != 'ok' or not abs(float(r[1]) - want) <= 1e-8 * max(1.0, want):
-            acc.violation('curvature_wrong', {'kind': kind}, dict(case, q='curvature'), observed=r, expected=want)
+        # relative tolerance: curvature scales like 1/size, so it is tiny for huge curves and huge for tiny ones
+        if r[0] != 'ok' or not abs(float(r[1]) - want) <= 1e-7 * want + 1e-8 / size:
+            acc.violation('curvature_wrong', {'kind': kind, 'scale': 'unit' if scale == 1.0 else ('tiny' if scale < 1 else 'huge')},
+                          dict(case, q='curvature'), observed=r, expected=want)
 
 
 def coincident_shapes():
@@ -307,6 +309,8 @@ def joint_checks(acc):
 def shards(tier, seed):
     rots = [0, 37] if tier == 'quick' else [0, 37, 90, 180, 211, 300]
     out = [{'what': 'segment', 'shape': n, 'rot': r} for n in list(AB.LINES) + list(AB.QUADS) + list(AB.CUBICS) + list(AB.ARCS) for r in rots]
+    out += [{'what': 'segment', 'shape': n, 'rot': 0, 'scale': sc} for n in list(AB.QUADS) + list(AB.CUBICS) + list(AB.ARCS)
+            for sc in (1e-6, 1e8)]
     out += [{'what': 'coincident', 'shape': n} for n, _, _ in coincident_shapes()]
     out += [{'what': 'transform', 'shape': n} for n in list(AB.LINES) + list(AB.QUADS) + list(AB.CUBICS) + list(AB.ARCS)]
     out.append({'what': 'path'})
@@ -317,7 +321,7 @@ def shards(tier, seed):
 def run_shard(desc, tier, seed):
     acc = core.Acc()
     if desc['what'] == 'segment':
-        check_segment(desc['shape'], desc['rot'], acc)
+        check_segment(desc['shape'], desc['rot'], acc, scale=desc.get('scale', 1.0))
     elif desc['what'] == 'coincident':
         for hi in range(8):
             for inp in ('python', 'numpy', 'rotated'):
@@ -348,7 +352,7 @@ def replay(case):
     acc = core.ReplayAcc()
     w = case['what']
     if w == 'segment':
-        check_segment(case['shape'], case['rot'], acc)
+        check_segment(case['shape'], case['rot'], acc, scale=case.get('scale', 1.0))
         acc.vlist = [v for v in acc.vlist if v['case'].get('t') == case['t']]
     elif w == 'coincident':
         check_coincident(case['shape'], case['heading'], case['input'], acc)
